@@ -374,3 +374,185 @@ def shrink_tree(t):
             nn = n[:-2]
             if nn and nn not in [x[0] for x in t["c"]] and bytes.fromhex(nn) not in (b".", b".."):
                 yield {"t": "D", "c": t["c"][:i] + [[nn, c]] + t["c"][i + 1:]}
+
+
+# ---------------------------------------------------------------- re-reading a tree that was modified in place (C06, C13)
+# A case with "reread": {"seed": s, "n": k, "mode": "edit" | "rebuild"} is read, then modified IN PLACE, then read again:
+# nothing may be carried from one from_disk call to the next.  mutate_tree is a pure function of the case (the model and the
+# reference need the tree as it is NOW without touching the disk); apply_ops does the same edits on the disk.
+def _walk_nodes(t, path=()):
+    """[(path as a tuple of hex names, node)] of every node below the root of a SMALL tree"""
+    out = []
+    if t["t"] == "D":
+        for n, c in t["c"]:
+            out.append((path + (n,), c))
+            out.extend(_walk_nodes(c, path + (n,)))
+    return out
+
+
+def _dir_at(t, path):
+    for n in path:
+        t = next(c for m, c in t["c"] if m == n)
+    return t
+
+
+def _set_child(t, path, new):
+    """replace (new is a node) or delete (new is None) the entry at path; add it when absent"""
+    d = _dir_at(t, path[:-1])
+    for i, (n, _c) in enumerate(d["c"]):
+        if n == path[-1]:
+            if new is None:
+                del d["c"][i]
+            else:
+                d["c"][i] = [n, new]
+            return
+    if new is not None:
+        d["c"].append([path[-1], new])
+
+
+def _flip(data):
+    return bytes(b ^ 1 for b in data)
+
+
+def mutate_tree(t, reread):
+    """-> (tree after the edits, list of edits).  Same-length rewrites, permission flips, file <-> symlink, directory -> file,
+    additions, removals, a directory renamed, two same-size files swapped; or ("rebuild"): every file's bytes and every
+    link's text replaced by different ones of the same length, the tree removed and created again at the same path"""
+    import copy
+    rng = random.Random(reread["seed"])
+    t2 = copy.deepcopy(t)
+    if reread.get("mode") == "rebuild":
+        for _p, n in _walk_nodes(t2):
+            if n["t"] == "R":
+                n["d"] = _flip(bytes.fromhex(n["d"])).hex()
+            elif n["t"] == "L":
+                n["x"] = bytes((b ^ 1) if (b ^ 1) not in (0, 47) else b for b in bytes.fromhex(n["x"])).hex()
+        return t2, [["rebuild"]]
+    ops = []
+    fresh = [0]
+
+    def new_name(d):
+        fresh[0] += 1
+        nm = (b"zz-new%d" % fresh[0]).hex()
+        return nm if nm not in [m for m, _ in d["c"]] else None
+    for _ in range(reread.get("n", 3)):
+        nodes = _walk_nodes(t2)
+        regs = [(p, n) for p, n in nodes if n["t"] == "R" and len(n["d"]) > 0]
+        k = rng.randrange(10)
+        if k <= 2 and regs:                                             # same length, other bytes, times restored
+            p, n = rng.choice(regs)
+            n["d"] = _flip(bytes.fromhex(n["d"])).hex()
+            ops.append(["rewrite", list(p), n["d"]])
+        elif k == 3 and regs:                                           # +x / -x
+            p, n = rng.choice([(p, n) for p, n in nodes if n["t"] == "R"])
+            n["m"] = n["m"] ^ 0o111 if rng.random() < 0.5 else (n["m"] | 0o100 if not n["m"] & 0o111 else n["m"] & ~0o111)
+            ops.append(["chmod", list(p), n["m"]])
+        elif k == 4 and nodes:                                          # file -> symlink of the same name, symlink -> file
+            cands = [(p, n) for p, n in nodes if n["t"] in ("R", "L")]
+            if cands:
+                p, n = rng.choice(cands)
+                new = {"t": "L", "x": b"lnk".hex()} if n["t"] == "R" else {"t": "R", "d": bytes.fromhex(n["x"]).hex(), "m": 0o644}
+                _set_child(t2, p, new)
+                ops.append(["replace", list(p), new])
+        elif k == 5:                                                    # directory -> file
+            dirs = [(p, n) for p, n in nodes if n["t"] == "D"]
+            if dirs:
+                p, _n = rng.choice(dirs)
+                new = {"t": "R", "d": b"was a directory".hex(), "m": 0o644}
+                _set_child(t2, p, new)
+                ops.append(["replace", list(p), new])
+        elif k == 6:                                                    # add an entry
+            dirs = [((), t2)] + [(p, n) for p, n in nodes if n["t"] == "D"]
+            p, d = rng.choice(dirs)
+            nm = new_name(d)
+            if nm:
+                new = rng.choice([{"t": "R", "d": b"added".hex(), "m": 0o755}, {"t": "D", "c": []}, {"t": "L", "x": b"a".hex()}])
+                new = copy.deepcopy(new)
+                d["c"].append([nm, new])
+                ops.append(["replace", list(p) + [nm], new])
+        elif k == 7 and nodes:                                          # remove an entry
+            p, _n = rng.choice(nodes)
+            _set_child(t2, p, None)
+            ops.append(["remove", list(p)])
+        elif k == 8:                                                    # rename a directory: same inode, new path
+            dirs = [(p, n) for p, n in nodes if n["t"] == "D"]
+            if dirs:
+                p, n = rng.choice(dirs)
+                parent = _dir_at(t2, p[:-1])
+                nm = new_name(parent)
+                if nm:
+                    for i, (m, _c) in enumerate(parent["c"]):
+                        if m == p[-1]:
+                            parent["c"][i] = [nm, n]
+                    ops.append(["rename", list(p), nm])
+        elif k == 9:                                                    # swap the bytes of two same-size files, times restored
+            by_size = {}
+            for p, n in regs:
+                by_size.setdefault(len(n["d"]), []).append((p, n))
+            pairs = [(a, b) for v in by_size.values() for a in v for b in v if a[0] < b[0] and a[1]["d"] != b[1]["d"]]
+            if pairs:
+                (p1, n1), (p2, n2) = rng.choice(pairs)
+                n1["d"], n2["d"] = n2["d"], n1["d"]
+                ops.append(["rewrite", list(p1), n1["d"]])
+                ops.append(["rewrite", list(p2), n2["d"]])
+    return t2, ops
+
+
+def _disk_path(root, path):
+    return root + b"".join(b"/" + bytes.fromhex(n) for n in path)
+
+
+def _remove_any(p):
+    if os.path.isdir(p) and not os.path.islink(p):
+        shutil.rmtree(p)
+    else:
+        os.unlink(p)
+
+
+def apply_ops(ops, root, t2):
+    """the edits of mutate_tree, on the tree materialised at root (its plain real path)"""
+    for op in ops:
+        if op[0] == "rebuild":
+            times = {}
+            for d, dirs, files in os.walk(root):
+                for x in [d] + [os.path.join(d, f) for f in files + dirs]:
+                    st = os.lstat(x)
+                    times[x] = (st.st_atime_ns, st.st_mtime_ns)
+            rm_rf(root)
+            materialise(t2, root)
+            for x in sorted(times, key=len, reverse=True):
+                try:
+                    os.utime(x, ns=times[x], follow_symlinks=False)
+                except OSError:
+                    pass
+        elif op[0] == "rewrite":
+            p = _disk_path(root, op[1])
+            st = os.lstat(p)
+            os.chmod(p, 0o600)
+            with open(p, "r+b") as f:
+                f.write(bytes.fromhex(op[2]))
+            os.chmod(p, stat.S_IMODE(st.st_mode))
+            os.utime(p, ns=(st.st_atime_ns, st.st_mtime_ns))
+        elif op[0] == "chmod":
+            os.chmod(_disk_path(root, op[1]), op[2])
+        elif op[0] == "replace":
+            p = _disk_path(root, op[1])
+            if os.path.lexists(p):
+                _remove_any(p)
+            materialise(op[2], p)
+        elif op[0] == "remove":
+            _remove_any(_disk_path(root, op[1]))
+        elif op[0] == "rename":
+            p = _disk_path(root, op[1])
+            os.rename(p, os.path.join(os.path.dirname(p), bytes.fromhex(op[2])))
+
+
+def gen_reread(rng, share=0.25):
+    if rng.random() >= share:
+        return None
+    return {"seed": rng.randrange(10**6), "n": rng.randrange(1, 6), "mode": "rebuild" if rng.random() < 0.2 else "edit"}
+
+
+def other_spelling(path, real):
+    """another way to name the same directory"""
+    return real if path != real else real + b"/."
